@@ -678,7 +678,7 @@ def judge_lu(ctx, cases, impl, mo, stats):
             else:
                 stats["model_agreements"] += 1
             continue
-        modelled = n >= 4 and kind in ("det", "solve", "invert") and len(mf) >= 3
+        modelled = kind in ("det", "solve", "invert") and len(mf) >= 3      # every n: closed forms for n <= 3 are in the model too
         if modelled:
             tr = mf[-1]
             mm = re.match(r"piv=(\S*) ok=(\S*)", tr)
@@ -702,15 +702,9 @@ def judge_lu(ctx, cases, impl, mo, stats):
                 rep = {"case": c, "impl": a, "oracle": verdict[1], "replay_cmd": "bin/check C09 --replay <this file>"}
                 if modelled: rep["model"] = m
                 ctx.violation(verdict[0], rep)
-        if kind in ("mv", "norms") and len(mf) >= 2:
+        if kind in ("mv", "norms", "prods") and len(mf) >= 2:
             af = lu_split(a)
-            if kind == "mv":
-                agree = len(af) == 2 and af[0] == mf[0] and af[1] == mf[1]
-            else:
-                sv = af[0].split() if len(af) == 2 else []
-                inf_simd = " ".join(sv[2 * S:3 * S])
-                inf_scal = " ; ".join(x.split()[2] if len(x.split()) > 2 else "?" for x in (af[1].split(" ; ") if len(af) == 2 else []))
-                agree = inf_simd == mf[0] and inf_scal == mf[1]
+            agree = len(af) == 2 and af[0] == mf[0] and af[1] == mf[1]
             if agree:
                 stats["model_agreements"] += 1
             else:
@@ -773,8 +767,44 @@ def sig_op(case):
     return "C09:op:%s:%s" % (t[6] if t[6] != "-" else t[5].split(":")[0], t[5].split(":")[0])
 
 
+def params_hook(ctx):
+    V.sh([sys.executable, os.path.join(V.VERIF, "tools", "extract_params.py"), ctx.repo], check=True)
+
+
+def source_operator_table(ctx):
+    """the operators loop.hh actually defines (macro invocations), compared with the table this check exercises"""
+    try:
+        src = open(os.path.join(ctx.repo, "dune/common/simd/loop.hh"), errors="replace").read()
+    except OSError:
+        return
+    SYM = {"+": "add", "-": "sub", "*": "mul", "/": "div", "%": "mod", "&": "band", "|": "bor", "^": "bxor", "<<": "shl", ">>": "shr",
+           "<": "lt", ">": "gt", "<=": "le", ">=": "ge", "==": "eq", "!=": "ne", "&&": "land", "||": "lor", "++": "inc", "--": "dec", "~": "bnot"}
+    found, unknown = {}, []
+    for kind, sym in re.findall(r"^\s*DUNE_SIMD_LOOP_(PREFIX|UNARY|POSTFIX|ASSIGNMENT|BINARY|BITSHIFT|COMPARISON|BOOLEAN)_OP\(([^)\s]+)\);", src, re.M):
+        s = sym[:-1] if kind == "ASSIGNMENT" else sym
+        name = {"+": "pos", "-": "neg"}.get(s, SYM.get(s)) if kind == "UNARY" else SYM.get(s)
+        if name is None or name not in OPS: unknown.append("%s_OP(%s)" % (kind, sym))
+        else: found.setdefault(kind, []).append(name)
+    for fn in re.findall(r"^\s*DUNE_SIMD_LOOP_CMATH_UNARY_OP(?:_WITH_RETURN)?\((\w+)", src, re.M):
+        if fn not in OPS: unknown.append("cmath %s" % fn)
+        else: found.setdefault("CMATH", []).append(fn)
+    for fn in re.findall(r"^\s*DUNE_SIMD_LOOP_STD_BINARY_OP\((\w+)\);", src, re.M):
+        if fn not in OPS: unknown.append("std binary %s" % fn)
+        else: found.setdefault("STD_BINARY", []).append(fn)
+    ctx.coverage["operators_defined_by_loop_hh"] = {k: len(v) for k, v in found.items()}
+    expected_min = {"ASSIGNMENT": 10, "BINARY": 8, "BITSHIFT": 2, "COMPARISON": 6, "BOOLEAN": 2, "PREFIX": 2, "POSTFIX": 2, "UNARY": 3, "CMATH": 39, "STD_BINARY": 2}
+    missing = [k for k, nmin in expected_min.items() if len(found.get(k, [])) < nmin]
+    if unknown:
+        ctx.violation("corr:C09/operator-table", {"broken": "corr:C09/operator-table", "detail": "loop.hh defines operators the check's table does not exercise: %s" % unknown,
+                                                  "oracle": "n/a"}, found_input=False)
+    if missing:
+        ctx.notes.append("operator families with fewer macro invocations in loop.hh than the table assumes (macro renamed / operator removed?): %s" % missing)
+
+
 def run(ctx):
+    ctx.params_hook = params_hook
     V.coq_stage(ctx)
+    source_operator_table(ctx)
     model = V.build_model(ctx)
     Slist = [1, 2, 3, 4, 8] if not ctx.quick else [1, 2, 3, 4, 8]
     build(ctx, Slist)
